@@ -521,6 +521,11 @@ package grpcgcp
 //@   loop 1 invariant forall c *grpc.ClientConn :: {$connCloses[c]} $connCloses[c] >= old($connCloses)[c]
 //@   loop 1 invariant forall f context.CancelFunc :: {$cancelCalls[f]} $cancelCalls[f] >= old($cancelCalls)[f]
 // the monitor loop runs until its context is cancelled: WaitForStateChange returns false once ctx is done (gRPC contract)
+// every pool has a monitor of its own: the function that stops it was created for this pool by this call, so stopping
+// one pool's monitor (a pool that an update removes) cannot stop the monitor of another pool
+//@ func newMonitoredConn
+//@   inline
+//@   ensures [C15.own-monitor] !entry($issued)[mc.cancel] && $issued[mc.cancel]
 //@ func (mc *monitoredConn) monitor
 //@   requires ctx != nil
 //@   loop 1 blocking
